@@ -55,19 +55,24 @@ structure Defects where
       by a marked row is returned a second time (as an unmarked row) right after it has been recomputed,
       when its entry count has grown (the cursor is re-positioned on `(room, entity, date, entry_number)`) -/
   lazyScan : Bool
+  /-- `node.rs:951`: a synchronised deletion record deletes `WHERE room_id = ? AND id = ?`: a version of the
+      row that lives in another room stays -/
+  syncDeletionRoomScoped : Bool
 deriving Repr, DecidableEq
 
 def Defects.asImplemented : Defects :=
   { historySeedDropped := true, entityNotCompared := true, emptyDayRow := true, oldDayUnmarked := true,
     refDeletionUnmarked := true, syncDeletionLocalDayUnmarked := true, ingestIgnoresTombstones := true,
     rightDependsOnLocalAuthor := true, edgesOnlyForFetchedRows := true, syncDeletionKeepsEdges := true,
-    deletionBatchKeyedById := true, lazyScan := true }
+    deletionBatchKeyedById := true, lazyScan := true,
+    syncDeletionRoomScoped := true }
 
 def Defects.none : Defects :=
   { historySeedDropped := false, entityNotCompared := false, emptyDayRow := false, oldDayUnmarked := false,
     refDeletionUnmarked := false, syncDeletionLocalDayUnmarked := false, ingestIgnoresTombstones := false,
     rightDependsOnLocalAuthor := false, edgesOnlyForFetchedRows := false, syncDeletionKeepsEdges := false,
-    deletionBatchKeyedById := false, lazyScan := false }
+    deletionBatchKeyedById := false, lazyScan := false,
+    syncDeletionRoomScoped := false }
 
 inductive Hash where
   | daily (sigs : List Sig)
@@ -197,26 +202,37 @@ def walkRows (d : Defects) (sigs : Content) (room ent : Nat) : Cursor → List D
     let (c2, os) := walkRows d sigs room ent c1 t
     (c2, o.toList ++ os)
 
+def nextIsDirty : List DayRow → Bool
+  | r' :: _ => r'.dirty
+  | [] => false
+
+/-- one row under the lazily evaluated `SELECT`: a marked row is recomputed and, when the next row of the
+    group is marked and its entry count has grown, returned once more as an unmarked row; an unmarked row
+    is returned only when the next row of the group is marked -/
+def lazyStep (d : Defects) (sigs : Content) (room ent : Nat) (c : Cursor) (r : DayRow) (nextDirty : Bool) :
+    Cursor × Option DayRow :=
+  if r.dirty then
+    match stepRow d sigs room ent c r with
+    | (c1, some r1) => if nextDirty && r1.count > r.count then stepRow d sigs room ent c1 r1 else (c1, some r1)
+    | (c1, none) => (c1, none)
+  else if nextDirty then stepRow d sigs room ent c r
+  else (c, some r)
+
 /-- the rows the lazily evaluated `SELECT` returns for one group, each processed as it is returned -/
 def walkLazy (d : Defects) (sigs : Content) (room ent : Nat) : Cursor → List DayRow → Cursor × List DayRow
   | c, [] => (c, [])
   | c, r :: t =>
-    let nextDirty := match t with
-      | r' :: _ => r'.dirty
-      | [] => false
-    let (c1, o) :=
-      if r.dirty then
-        let (c1, o) := stepRow d sigs room ent c r
-        match o with
-        | some r1 => if nextDirty && r1.count > r.count then stepRow d sigs room ent c1 r1 else (c1, o)
-        | none => (c1, o)
-      else if nextDirty then stepRow d sigs room ent c r
-      else (c, some r)
-    let (c2, os) := walkLazy d sigs room ent c1 t
-    (c2, o.toList ++ os)
+    let s := lazyStep d sigs room ent c r (nextIsDirty t)
+    let w := walkLazy d sigs room ent s.1 t
+    (w.1, s.2.toList ++ w.2)
 
 def cleanPrefix (rows : List DayRow) : List DayRow := rows.takeWhile (fun r => !r.dirty)
 def fromFirstDirty (rows : List DayRow) : List DayRow := rows.dropWhile (fun r => !r.dirty)
+
+/-- intended: the last unmarked row before the window seeds the cursor with its stored hashes -/
+def seedCursor (c : Cursor) (room ent : Nat) : Option DayRow → Cursor
+  | some s => { grp := some (room, ent), daily := s.daily, hist := s.hist }
+  | none => c
 
 /-- the rows of one group: untouched rows before the window, then the walked window -/
 def recomputeGroup (d : Defects) (sigs : Content) (c : Cursor) (g : Group) : Cursor × Group :=
@@ -231,10 +247,7 @@ def recomputeGroup (d : Defects) (sigs : Content) (c : Cursor) (g : Group) : Cur
     (c', { g with rows := pre.dropLast ++ out })
   else
     -- intended: the last unmarked row before the window seeds the cursor with its stored hashes
-    let c0 : Cursor := match pre.getLast? with
-      | some s => { grp := some (g.room, g.ent), daily := s.daily, hist := s.hist }
-      | none => c
-    let (c', out) := walkRows d sigs g.room g.ent c0 rest
+    let (c', out) := walkRows d sigs g.room g.ent (seedCursor c g.room g.ent pre.getLast?) rest
     (c', { g with rows := pre ++ out })
 
 def recomputeFrom (d : Defects) (sigs : Content) : Cursor → Log → Log
